@@ -49,6 +49,12 @@ pub struct Shared {
     pub faults: Vec<Fault>,
     pub counter: u32,
     pub injected: Vec<(u32, Call, bool)>,
+    /// a competing AddVersion (parent, payload) to slip in: if the request under test begins
+    /// another transaction *after* one of its storage calls was made to fail, this request of
+    /// the same client is served first (through a server of its own on the inner storage)
+    pub interpose: Option<(Uuid, Vec<u8>)>,
+    /// what the interposed request was answered (Ok(Some(id)) accepted, Ok(None) conflict)
+    pub interposed: Option<Result<Option<Uuid>, String>>,
 }
 
 /// Counts every storage call and, if armed, injects faults.
@@ -73,6 +79,7 @@ pub fn arm(shared: &Arc<Mutex<Shared>>, faults: Vec<Fault>) {
     s.faults = faults;
     s.counter = 0;
     s.injected.clear();
+    s.interposed = None;
 }
 
 pub fn disarm(shared: &Arc<Mutex<Shared>>) -> Vec<(u32, Call, bool)> {
@@ -127,6 +134,24 @@ impl Storage for Instrumented {
                 Err(injected_error(Call::Begin, n, true))
             }
             Decision::Pass => {
+                let slip = {
+                    let mut s = self.shared.lock().unwrap();
+                    if !s.injected.is_empty() && s.interposed.is_none() {
+                        s.interpose.take()
+                    } else {
+                        None
+                    }
+                };
+                if let Some((parent, data)) = slip {
+                    use taskchampion_sync_server_core::{AddVersionResult, Server, ServerConfig};
+                    let srv = Server::new(ServerConfig::default(), crate::driver::ArcStorage(self.inner.clone()));
+                    let r = match srv.add_version(client_id, parent, data) {
+                        Ok((AddVersionResult::Ok(id), _)) => Ok(Some(id)),
+                        Ok((AddVersionResult::ExpectedParentVersion(_), _)) => Ok(None),
+                        Err(e) => Err(format!("{e:#}")),
+                    };
+                    self.shared.lock().unwrap().interposed = Some(r);
+                }
                 let r = self.inner.txn(client_id);
                 record(&self.shared, client_id, Call::Begin, r.is_ok());
                 let inner = r?;
